@@ -401,8 +401,11 @@ Section WS.
           | Ok l => let q := wsum units l in
                     (mkW (map Some l) true (Some t) q, s', Ok q)
           end
-        else let q := wsum units ind in
-             (mkW (ws_fetched w) (ws_valid w) (Some t) q, s, Ok q)
+        else
+          (* connect phase: answered from the connector's start-time data; that answer is NOT
+             remembered under [t] - only data pulled for a time may be served again for it *)
+          let q := wsum units ind in
+          (mkW (ws_fetched w) (ws_valid w) None q, s, Ok q)
     end.
 
   (** the same component without the memo (always recomputes) *)
@@ -425,6 +428,36 @@ Section WS.
         let '(xs, s'') := ws_run_nomemo w' s' r in (x :: xs, s'')
     end.
 End WS.
+
+(** Gridded data with missing cells (masked arrays): a cell of the sum is missing iff it is missing
+    in one of the terms value_i * weight_i, whatever the order of the terms (numpy: masked + plain
+    is masked); elsewhere it is the sum.  [None] = masked cell. *)
+Definition cell_term (u : Q) (v w : option Q) : option Q :=
+  match v, w with
+  | Some a, Some b => Some (a * b * u)%Q
+  | _, _ => None
+  end.
+
+Fixpoint cell_sum (l : list (option Q)) : option Q :=
+  match l with
+  | [] => Some 0%Q
+  | None :: _ => None
+  | Some x :: r => match cell_sum r with Some y => Some (x + y)%Q | None => None end
+  end.
+
+(** the terms of cell [k]: [ins] = [v0; w0; v1; w1; ...] (arrays), [us] the units of the values *)
+Fixpoint cell_terms (us : list Q) (ins : list (list (option Q))) (k : nat) : list (option Q) :=
+  match us, ins with
+  | u :: us', v :: w :: ins' => cell_term u (nth k v None) (nth k w None) :: cell_terms us' ins' k
+  | _, _ => []
+  end.
+
+(** the delivered array: in the units of the first value, converted to the output's units *)
+Definition ws_cells (us : list Q) (uout : Q) (ncell : nat) (ins : list (list (option Q))) : list (option Q) :=
+  map (fun k => match cell_sum (cell_terms us ins k) with
+                | Some x => Some (Qred (x / uout))%Q
+                | None => None
+                end) (seq 0 ncell).
 
 (* ------------------------------------------------------------------------- *)
 (** * 5. Networks: time-stepped producers, pull-based components, consumers *)
@@ -667,13 +700,16 @@ Inductive c20_case : Type :=
 | CaseSO (ops : list (sop nat))                                  (* one static output *)
 | CaseSOM (k : nat) (limit : option Z) (size : Z) (ops : list (sop nat))  (* ... with k targets and a memory limit *)
 | CaseSI (k : nat) (ops : list iop)                              (* k static inputs on a static output *)
-| CaseNet (net : list node) (cedges : list (edge * bool)) (ops : list nop).
+| CaseNet (net : list node) (cedges : list (edge * bool)) (ops : list nop)
+(* gridded WeightedSum: per request the arrays its inputs delivered *)
+| CaseCells (us : list Q) (uout : Q) (ncell : nat) (reqs : list (list (list (option Q)))).
 
 Inductive c20_obs : Type :=
 | ObsSO (l : list (sobs nat))
 | ObsSOM (l : list (sobs nat * (nat * nat)))
 | ObsSI (l : list (sobs nat * nat))
-| ObsNet (l : list nobs).
+| ObsNet (l : list nobs)
+| ObsCells (l : list (list (option Q))).
 
 Definition c20_model (c : c20_case) : c20_obs :=
   match c with
@@ -681,6 +717,7 @@ Definition c20_model (c : c20_case) : c20_obs :=
   | CaseSOM k limit size ops => ObsSOM (som_run k limit size (som_init, O) ops)
   | CaseSI k ops => ObsSI (i_run (i_init k) ops)
   | CaseNet net ce ops => ObsNet (nrun net ce (net_init net ce) ops)
+  | CaseCells us uout ncell reqs => ObsCells (map (ws_cells us uout ncell) reqs)
   end.
 
 Definition c20_obs_eqb (a b : c20_obs) : bool :=
@@ -689,6 +726,7 @@ Definition c20_obs_eqb (a b : c20_obs) : bool :=
   | ObsSOM x, ObsSOM y => list_eqb (pair_eqb sobs_eqb (pair_eqb Nat.eqb Nat.eqb)) x y
   | ObsSI x, ObsSI y => list_eqb (pair_eqb sobs_eqb Nat.eqb) x y
   | ObsNet x, ObsNet y => list_eqb nobs_eqb x y
+  | ObsCells x, ObsCells y => list_eqb (list_eqb (option_eqb qclose)) x y
   | _, _ => false
   end.
 
